@@ -9,6 +9,8 @@ PROP = {
         "GunYu.Props.C20.ignore_untouched_bisync",
         "GunYu.Props.C20.error_before_modify_bisync",
         "GunYu.Props.C20.absent_final",
+        "GunYu.Props.C20.absent_final_bisync",
+        "GunYu.Props.C20.snapshot_exp_abs",
     ],
     "expected_facts": {},
     "harness": [
@@ -31,7 +33,14 @@ PROP = {
             "ignore => value/type/expiry of the existing key unchanged, no write request on it, no failure; error => replay fails "
             "with the key-exists error, nothing modified before; replace and fresh keys => final value (RESTORE payload recomputed "
             "from the generator's spec, or list order / hash map / set / zset content) and expiry equal the snapshot's; keys "
-            "outside the snapshot untouched. distinct_nontrivial = distinct cases with at least one pre-existing key",
+            "outside the snapshot untouched. Added after review: the target may answer 'Bad data format' to RESTORE for chosen keys "
+            "(exhaustive 315-case scope + random); the same key NAME as a snapshot key of both DBs (exhaustive 96-case twin scope + "
+            "random); the policy as a raw configured string ('', 'Ignore', 'ERROR', 'bogus', ...) passed through the REAL "
+            "config.ReplayConfig.fix (overlay shim) while model/monitor use the documented meaning; keyExistsLog on in 1/5 of the "
+            "cases; the bubble clock is 137 ms off a whole second and expiries are not multiples of 1000; the real SendRdb with 2-3 "
+            "workers (plain and bidirectional, split values, empty key) under every policy with an order-free monitor; a client "
+            "write between buildBisyncRdbReplayUnit's EXISTS probe and execBisyncRdbUnit's MULTI/EXEC (tg.Hook) on the RESTORE path. "
+            "distinct_nontrivial = distinct cases with at least one pre-existing key",
     "trusted": [
         "Redis semantics of EXISTS/DEL/PEXPIRE/RESTORE[REPLACE]/BUSYKEY and of native data commands (create-or-append, TTL kept) "
         "as transcribed in Model/Restore.lean (objEffect) and as implemented by the target double pkg/vfdoubles",
@@ -41,8 +50,16 @@ PROP = {
         "the chunks of one key reach the same replay worker in order (sendRdb routes by fnv(key); an entry with an EMPTY key is "
         "routed round-robin, so with replayRdbParallel > 1 a split value under the key \"\" would not satisfy this)",
         "no other writer touches the key between the probe and the writes (single replay worker per key)",
-        "the target accepts a well-formed RESTORE payload (the 'Bad data format' fallback of RdbReplay.Replay is not modelled: "
-        "the double never answers it)",
+        "bidirectional replay: a RESTORE refused with 'Bad data format' inside the unit's EXEC fails the replay with an error "
+        "(nothing merged) - not modelled (hypothesis `t.bad key = false` of the *_bisync theorems); the plain path's fallback IS "
+        "modelled and exercised",
+        "window between probe and write: exercised for the bidirectional RESTORE path only (BUSYKEY: ignore/error keep the concurrent "
+        "value; under ignore the replay FAILS because the transaction batcher reports the BUSYKEY slot before "
+        "validateBisyncRdbExecReplies' tolerance is reached - observation); on the expansion paths a key created inside the window "
+        "would be merged into (needs WATCH/Lua, outside a minimal repair) - assumption 'no other writer on the key during its replay'",
+        "entry shapes: Group/Value (first bin first, later bins same key, commands on the key - `cmdKey` takes the second argument "
+        "for XGROUP) are hypotheses about loader output, not checked on real entries; module values and streams are not generated "
+        "(C03 covers their expansion)",
         "replaceHashTag off (with it on, the plain expansion path probes/deletes/expires the rewritten key while the native "
         "commands still carry the original key - noticed while transcribing, outside this property's quantifier)",
         "later chunks carry the key's expiry or none (Value.exp): holds for the loader before and after the D8 repair",
@@ -59,6 +76,6 @@ MANIFEST = {
             "to the real code by request-by-request correspondence against the target double with pre-populated keys; an "
             "independent Go monitor checks the property itself on the real code's final keyspace.",
     "note": "trusted: Lean kernel, transcribed Redis semantics of the few commands used, target double, harness; models of the "
-            "REPAIRED code (D7 fixed ae34095, D21 fixed)",
+            "REPAIRED code (D7, D21, D24, D25 fixed)",
     "technique": "Lean 4 proof (induction over the chunk list, per-key object semantics, frame lemmas) + differential correspondence + monitor",
 }
